@@ -9,6 +9,7 @@ CONSTANTS
   CtxMayExpire = TRUE
   ClientMayClose = TRUE
   HandlerMayClose = TRUE
+  StartMayFail = TRUE
   SeqRestart = FALSE
   Bug = "none"
   TrackAct = FALSE
